@@ -733,4 +733,63 @@ theorem frames_fit_reloadOf (p : Prog) (hl : ∀ n ∈ p.nodes, labelled n = fal
           exact Nat.le_trans (renamed_isNamed_le m (hl m hmm) f) h
 
 
+/-! ### the order of the serialised code list -/
+
+theorem build_ids (t : Table) : ∀ (ds : List CodeDef) (acc ns : List Node),
+    build t ds acc = .ok ns → ns.map (·.id) = acc.map (·.id) ++ ds.map (·.id) := by
+  intro ds
+  induction ds with
+  | nil =>
+    intro acc ns h
+    simp only [build, Except.ok.injEq] at h
+    subst h
+    simp
+  | cons d ds ih =>
+    intro acc ns h
+    simp only [build] at h
+    split at h
+    · exact absurd h (by simp)
+    · split at h
+      · have := ih _ _ h
+        simpa [mkNode] using this
+      · split at h
+        · exact absurd h (by simp)
+        · have := ih _ _ h
+          simpa [mkNode] using this
+
+theorem relinkNodes_ids (link : Bytes → Option Nat) : ∀ ns : List Node,
+    (relinkNodes link ns).map (·.id) = ns.map (·.id) := by
+  intro ns
+  induction ns with
+  | nil => rfl
+  | cons n ns ih => simp [relinkNodes, ih]
+
+theorem build_orphan_fails (t : Table) : ∀ (ds : List CodeDef) (acc : List Node),
+    orphanFrom (acc.map (·.id)) ds = true → ∀ ns, build t ds acc ≠ .ok ns := by
+  intro ds
+  induction ds with
+  | nil => intro acc h; simp [orphanFrom] at h
+  | cons d ds ih =>
+    intro acc h ns hb
+    simp only [orphanFrom, Bool.or_eq_true, Bool.and_eq_true] at h
+    simp only [build] at hb
+    split at hb
+    · exact absurd hb (by simp)
+    · rcases h with ⟨hne, hnot⟩ | hrest
+      · have hl : lastIdx (fun n : Node => n.id == d.parentID) acc = none := by
+          apply lastIdx_none
+          intro a ha
+          simp only [beq_eq_false_iff_ne, ne_eq]
+          intro heq
+          have : d.parentID ∈ acc.map (·.id) := heq ▸ List.mem_map_of_mem ha
+          simp [this] at hnot
+        rw [hl] at hb
+        simp only [hne, ↓reduceIte] at hb
+        exact absurd hb (by simp)
+      · split at hb
+        · exact ih _ (by simpa [mkNode] using hrest) ns hb
+        · split at hb
+          · exact absurd hb (by simp)
+          · exact ih _ (by simpa [mkNode] using hrest) ns hb
+
 end Risor.C17
